@@ -480,7 +480,8 @@ func (c *FnCtx) funcRef(f *ssa.Function) Term {
 	t := c.vc.Const("fn$"+f.String(), SInt)
 	if !c.funcRefs[t.S] {
 		c.funcRefs[t.S] = true
-		c.vc.Assert(App(SBool, ">", t, IntLit(0)))
+		// distinct functions are distinct values (and none is nil)
+		c.vc.Assert(Eq(t, IntLit(int64(len(c.funcRefs)))))
 	}
 	return t
 }
